@@ -2,12 +2,13 @@
 (***************************************************************************)
 (* G12 correspondence, direction  Dhcp4Ind!Spec => Dhcp4!Spec,  root =     *)
 (* Dhcp4Ind with the constants of a small universe and GenNameOf = the     *)
-(* derived names of Dhcp4 ("g" \o ToString(a)).  checks/g12.py compares    *)
+(* derived names of Dhcp4 ("g" / "u" \o ToString(a)).  checks/g12.py compares    *)
 (* the number of reachable states with Dhcp4RefA.small.cfg.                *)
 (***************************************************************************)
 EXTENDS Dhcp4Ind, TLC
 
 MCGenNameOf == [a \in StatAddrs |-> "g" \o ToString(a)]
+MCAltNameOf == [a \in StatAddrs |-> "u" \o ToString(a)]
 
 Orig == INSTANCE Dhcp4
 
